@@ -285,13 +285,13 @@ func judgeRefresh(sc *scenario, f *feer, drop []int, before, after []int) (kind,
 	sums := map[pkey]int64{}
 	for _, i := range before {
 		t := sc.txs[i]
-		if !dm[i] && t.FeePerByte() >= f.fpb {
+		if !dm[i] && fpbOf(t) >= f.fpb {
 			sums[payerOf(t)] += feeOf(t)
 		}
 	}
 	for _, i := range before {
 		t := sc.txs[i]
-		if am[i] || dm[i] || t.FeePerByte() < f.fpb {
+		if am[i] || dm[i] || fpbOf(t) < f.fpb {
 			continue
 		}
 		if sums[payerOf(t)] <= f.bal[payerOf(t)] {
